@@ -59,6 +59,29 @@ def gen(rng, m=None, n=None, klass=None, max_m=8, max_n=12) -> tuple[np.ndarray,
     return np.ascontiguousarray(J, dtype=np.float64), klass
 
 
+def krum_hostile(rng, dname):
+    """Matrices from the setting Krum exists for.  (a) a few nearly agreeing honest rows + attacker rows many orders of magnitude
+    larger (sums of distances must not absorb the honest ones); (b) more than 25 rows sharing a large common component with a tiny
+    spread (distances must not be computed as |a|^2 + |b|^2 - 2ab)."""
+    if rng.random() < 0.5:
+        h = int(rng.integers(4, 7))
+        a = int(rng.integers(1, 3))
+        n = int(rng.integers(2, 9))
+        spread = float(10 ** rng.uniform(-3, -1))
+        H = 1.0 + spread * rng.standard_normal((h, n))
+        big = float(10 ** (rng.uniform(3, 8) if dname == "float32" else rng.uniform(3, 17)))
+        A = big * rng.standard_normal((a, n))
+        J = np.vstack([H, A])
+        J = J[rng.permutation(h + a)]
+        return np.ascontiguousarray(J), "cluster_with_huge_outliers"
+    m = int(rng.integers(26, 41))
+    n = int(rng.integers(8, 33))
+    mag = float(10 ** rng.uniform(1.5, 3))
+    spread = mag * float(10 ** (rng.uniform(-5.2, -4.0) if dname == "float32" else rng.uniform(-9, -5)))
+    J = rng.standard_normal(n) * mag + spread * rng.standard_normal((m, n))
+    return np.ascontiguousarray(J), "many_clustered_rows"
+
+
 def well_conditioned(rng, m, n, cond=10.0, scale=1.0):
     """m <= n, full row rank, singular values log-uniform in [1/cond, 1] * scale."""
     assert m <= n
